@@ -117,6 +117,16 @@ def run_case(data):
                 s.call('send_headers', sid, RESP)
     if r.violations:
         return r
+    if ch.chance(80):
+        # the endpoint lowers its own MAX_CONCURRENT_STREAMS (acknowledged) to or below what is open right now:
+        # that binds new streams only; frames racing a reset open nothing
+        v = ch.pick([0, 1, 3])
+        o = s.call('update_settings', {wire.S_MAX_CONCURRENT_STREAMS: v})
+        feed([wire.settings(ack=True)], racing=False)
+        r.labels.add('local-stream-limit-lowered')
+        r.step('acknowledged MAX_CONCURRENT_STREAMS', v)
+        if r.violations:
+            return r
     # -- the endpoint resets -------------------------------------------------
     cands = sorted(peer)
     victims = [ch.pick(cands)]
@@ -252,6 +262,10 @@ def run_case(data):
             else:
                 es = False
             outs = feed([wire.headers(sid, s.hblock(base + fields), end_stream=es)], racing=False)
+        elif 'local-stream-limit-lowered' in r.labels:
+            # (no new stream may be opened now: the raced fields come back as trailers on a live one)
+            base = []
+            outs = feed([wire.headers(sid, s.hblock(fields), end_stream=True)], racing=False)
         else:
             sid = 7
             base = list(REQ)
